@@ -243,6 +243,19 @@ func (p *c17) Run(rec *core.Recorder, seed uint64, idx int, tier string) {
 		return
 	}
 	srcs, main := p.build(r)
+	if r.P(1, 4) {
+		// every template lives in a directory and names the others relative to itself ('./inc', './lay', ...)
+		rel := map[string]string{}
+		for n, src := range srcs {
+			for _, other := range []string{"inc", "lib", "lay", "mid"} {
+				src = strings.ReplaceAll(src, "'"+other+"'", "'./"+other+"'")
+			}
+			src = strings.ReplaceAll(src, "'in' ~", "'./in' ~")
+			rel["d/"+n] = src
+		}
+		srcs, main = rel, "d/"+main
+		rec.Count("programs-with-relative-names", 1)
+	}
 	viaWriter := r.P(1, 3)
 	debug := r.P(1, 4)
 	warm := r.P(1, 4)
@@ -298,14 +311,14 @@ func (p *c17) Run(rec *core.Recorder, seed uint64, idx int, tier string) {
 		csk := map[string]any{"templates": srcs, "path": path, "failed_invocation": k, "of": n, "kind": kind}
 		if err == nil {
 			rec.Violate("fault-injection", "error-swallowed:"+kind,
-				fmt.Sprintf("invocation %d of %d (a %s) failed with a sentinel error, yet the render returned err == nil and output %s; main = %s", k, n, kind, core.Q(core.Trunc(out, 150)), core.Q(core.Trunc(srcs["main"], 400))), csk, "")
+				fmt.Sprintf("invocation %d of %d (a %s) failed with a sentinel error, yet the render returned err == nil and output %s; main = %s", k, n, kind, core.Q(core.Trunc(out, 150)), core.Q(core.Trunc(srcs[main], 400))), csk, "")
 			return
 		}
 		if !errors.Is(err, error(in.sent)) {
 			var as *c17Sentinel
 			if !errors.As(err, &as) {
 				rec.Violate("fault-injection", "cause-not-wrapped:"+kind,
-					fmt.Sprintf("invocation %d (a %s) failed with a sentinel; the returned error %q does not wrap it (errors.Is/As false); main = %s", k, kind, core.Trunc(err.Error(), 200), core.Q(core.Trunc(srcs["main"], 400))), csk, "")
+					fmt.Sprintf("invocation %d (a %s) failed with a sentinel; the returned error %q does not wrap it (errors.Is/As false); main = %s", k, kind, core.Trunc(err.Error(), 200), core.Q(core.Trunc(srcs[main], 400))), csk, "")
 				return
 			}
 		}
